@@ -422,17 +422,23 @@ class LObj:
             self.x, b(self.inactive), self.susp, self.kids, b(self.src), b(self.deleted), b(self.armed))
 
     def ref(self):     # only used to decide liveness for the generator
-        return (1 if self.x > 0 else 0) + (2 if self.inactive else 0) + (2 if self.susp > 0 else 0) + self.kids + \
+        return (1 if self.x > 0 else 0) + (2 if self.inactive else 0) + (2 if self.susp > 0 and not self.inactive else 0) + self.kids + \
                (2 if self.armed else 0) + (1 if self.src and not self.deleted else 0) - 1
 
 
 def gen_lane_scripts(rng, n):
-    corpus = ["kPKspuR", "mMXZxyR", "vVR", "xyspppuR", "kkPKPKrRxR", "mMZyxR", "ssppuuxR", "xkRPK", "ymMRXZ", "xSpuR", "SupSupxyR", "xQuR", "QupQuyxR", "kQPuKR"]
+    corpus = ["kPKspuR", "mMXZxyR", "vVR", "xyspppuR", "kkPKPKrRxR", "mMZyxR", "ssppuuxR", "xkRPK", "ymMRXZ", "xSpuR", "SupSupxyR", "xQuR", "QupQuyxR", "kQPuKR",
+              "vhHVR", "vhhHHVxR", "gGR", "gpGxR", "kgPGKR", "xggR".replace("gg", "gG"), "rgRGR"]
     out = list(corpus)
     for _ in range(n):
         s, x, susp, kids, src, act, qi = "", 1, 0, 0, False, False, False
+        qsusp, lk = 0, False
         for _k in range(rng.choice([4, 8, 14])):
-            c = rng.choice("rRsukKpPxymMXZvVSQ")
+            c = rng.choice("rRsukKpPxymMXZvVSQhHgG")
+            if c == "h" and not qi or c == "H" and qsusp == 0 or c == "V" and qsusp > 0:
+                continue
+            if c == "g" and (lk or susp > 0) or c == "G" and (not lk or susp > 0):
+                continue
             if c == "R" and (x <= 1):
                 continue
             if c == "u" and susp == 0 or c == "K" and (kids == 0 or susp > 0) or c == "P" and (kids == 0 or susp > 0):
@@ -453,6 +459,8 @@ def gen_lane_scripts(rng, n):
             x += {"r": 1, "R": -1}.get(c, 0)
             susp += {"s": 1, "u": -1, "S": 1, "Q": 1}.get(c, 0)
             kids += {"k": 1, "K": -1}.get(c, 0)
+            qsusp += {"h": 1, "H": -1}.get(c, 0)
+            lk = {"g": True, "G": False}.get(c, lk)
             if c == "m":
                 src, act = True, False
             elif c == "M":
@@ -463,7 +471,7 @@ def gen_lane_scripts(rng, n):
                 qi = True
             elif c == "V":
                 qi = False
-        s += "u" * susp + ("V" if qi else "")
+        s += "u" * susp + "H" * qsusp + ("V" if qi else "") + ("G" if lk else "")
         if src:
             s += ("" if act else "M") + rng.choice(["XZ", "Z"])
         s += "K" * kids + "R" * x
@@ -524,6 +532,14 @@ def lane_expect(scripts):
                 qi = LObj(inactive=True)
             elif c == "V":
                 qi = None
+            elif c == "h":
+                qi.susp += 1
+            elif c == "H":
+                qi.susp -= 1
+            elif c == "g":
+                q.kids += 1
+            elif c == "G":
+                q.kids -= 1
             focus = src if src is not None else qi
             steps.append((q.coq(), focus.coq() if focus is not None else None))
         disposed = q.ref() < 0
@@ -599,7 +615,7 @@ def check_lanes(scripts, outs, crashes, label, plans, exps):
                 1 if (disposed and hasspec) else 0, items]
         if fin != efin:
             fails.append({"key": "%s:lane-final:%s" % (label, s),
-                          "what": "queue history %s (r/R retain/release, s/u suspend/resume, k/K child queue, p/P items, S item suspending "
+                          "what": "queue history %s (r/R retain/release, s/u suspend/resume, h/H suspend/resume of the inactive queue, g/G legacy retarget onto q / away, k/K child queue, p/P items, S item suspending "
                                   "its own queue, x context+finalizer, y queue-specific, m/M/X/Z timer source create/arm/cancel/release): "
                                   "finalizer runs / context ok / ran on target queue / queue-specific destructor runs / items run = %s, "
                                   "expected %s" % (s, fin, efin), "script": "L " + s})
